@@ -8,7 +8,7 @@
 
 use crate::kv::{self, Key, Val};
 use crate::{fmt_list, fmt_opt, Machine};
-use bplustree::{BPlusTreeError, BPlusTreeMap, ItemIterator, LeafNode, NodeRef, NULL_NODE};
+use bplustree::{BPlusTreeError, BPlusTreeMap, ItemIterator, LeafNode, NodeRef, RangeIterator, NULL_NODE};
 use std::collections::BTreeMap;
 use std::marker::PhantomData;
 use std::ops::Bound;
@@ -249,6 +249,8 @@ pub struct TreeMachine {
     max_live_leaves: usize,
     max_live_branches: usize,
     damaged: bool,
+    sparse_checks: bool,
+    mutations: u64,
     damage_kind: Option<String>,
     pub events: BTreeMap<String, u64>,
 }
@@ -329,6 +331,8 @@ impl TreeMachine {
             max_live_leaves: 0,
             max_live_branches: 0,
             damaged: false,
+            sparse_checks: false,
+            mutations: 0,
             damage_kind: None,
             events: BTreeMap::new(),
         }
@@ -344,6 +348,13 @@ impl TreeMachine {
     fn post_mutation(&mut self, before: Option<(usize, usize, usize)>) {
         if self.damaged {
             return;
+        }
+        if self.sparse_checks {
+            // oracle-only (deep tree) mode: the whole-structure oracles run every 65536th mutation and on `check`
+            self.mutations += 1;
+            if self.mutations % 65536 != 0 {
+                return;
+            }
         }
         let Some(map) = self.map.as_ref() else { return };
         let s = snapshot(map);
@@ -537,7 +548,8 @@ impl TreeMachine {
     }
 
     fn exec_on_map(&mut self, ws: &[&str]) -> String {
-        let before = self.live_counts();
+        // (len() walks every leaf: in the oracle-only deep-tree mode it is not taken before every call)
+        let before = if self.sparse_checks { None } else { self.live_counts() };
         match ws {
             ["insert", k, v] => {
                 let (Some((ko, ks)), Ok(v)) = (pk(k), v.parse::<u64>()) else { return "bad-op".into() };
@@ -745,6 +757,32 @@ impl TreeMachine {
                 }
                 fmt_list(&got)
             }
+            ["rangefrom", leaf, idx, skip, e] | ["iterfrom", leaf, idx, skip, e] => {
+                // the public positioned constructors, called directly with an arbitrary (leaf id, index):
+                // RangeIterator::new_with_skip_owned / ItemIterator::new_from_position_with_bounds
+                let (Ok(leaf), Ok(idx), Some(eb)) = (leaf.parse::<u32>(), idx.parse::<usize>(), pbound(e)) else { return "bad-op".into() };
+                let m = self.map.as_ref().unwrap();
+                let got: Vec<String> = if ws[0] == "rangefrom" {
+                    let end_info = match &eb {
+                        Bound::Included(k) => Some((Key::new(*k, 0), true)),
+                        Bound::Excluded(k) => Some((Key::new(*k, 0), false)),
+                        Bound::Unbounded => None,
+                    };
+                    RangeIterator::new_with_skip_owned(m, Some((leaf, idx)), *skip == "1", end_info).map(|(k, v)| fkv(k, v)).collect()
+                } else {
+                    let ekey = match &eb {
+                        Bound::Included(k) | Bound::Excluded(k) => Some(Key::new(*k, 0)),
+                        Bound::Unbounded => None,
+                    };
+                    let b: Bound<&Key> = match (&eb, ekey.as_ref()) {
+                        (Bound::Included(_), Some(k)) => Bound::Included(k),
+                        (Bound::Excluded(_), Some(k)) => Bound::Excluded(k),
+                        _ => Bound::Unbounded,
+                    };
+                    ItemIterator::new_from_position_with_bounds(m, leaf, idx, b).map(|(k, v)| fkv(k, v)).collect()
+                };
+                fmt_list(&got)
+            }
             ["itemsfrom", start, e] => {
                 let (Some((so, _)), Some(eb)) = (pk(start), pbound(e)) else { return "bad-op".into() };
                 let m = self.map.as_ref().unwrap();
@@ -873,6 +911,14 @@ impl TreeMachine {
                     m.free_branch_count(),
                     fmt_opt(m.get_first_leaf_id())
                 )
+            }
+            ["fullcheck"] => {
+                // every whole-structure oracle now (used by the oracle-only deep-tree mode, where they run sparsely)
+                let save = self.sparse_checks;
+                self.sparse_checks = false;
+                self.post_mutation(None);
+                self.sparse_checks = save;
+                "ok".into()
             }
             ["check"] => {
                 let m = self.map.as_ref().unwrap();
@@ -1089,6 +1135,14 @@ impl TreeMachine {
                 crate::kv::arm_cmp_fuse(n.parse().unwrap_or(0));
                 return "ok".into();
             }
+            ["arm-kdrop", n] => {
+                crate::kv::arm_kdrop_fuse(n.parse().unwrap_or(0));
+                return "ok".into();
+            }
+            ["arm-vdrop", n] => {
+                crate::kv::arm_vdrop_fuse(n.parse().unwrap_or(0));
+                return "ok".into();
+            }
             _ => {}
         }
         if self.map.is_none() {
@@ -1110,6 +1164,15 @@ impl TreeMachine {
                 self.ev("fault-safe-panic");
             }
         }
+        "ok".into()
+    }
+
+    /// oracle-only mode (deep trees): the call runs with every oracle of the `R` machine, but its answer is not
+    /// printed (the model is not asked: a tree of 10^5 entries is beyond what the list-based model executes in
+    /// seconds); whole-structure oracles run sparsely
+    pub fn exec_o(&mut self, ws: &[&str]) -> String {
+        self.sparse_checks = true;
+        let _ = self.exec(ws);
         "ok".into()
     }
 
